@@ -630,9 +630,12 @@ func doCheck(b builds, cfg tierCfg) int {
 		}
 	}
 	st := (*selfTestResult)(nil)
+	mt := (*modelTestResult)(nil)
 	if viol == nil && cfg.selftest && !degraded {
 		r := selftest(b, cfg, 30, 30)
 		st = &r
+		m := modelTest()
+		mt = &m
 	}
 	code := 0
 	replayPath := ""
@@ -656,7 +659,10 @@ func doCheck(b builds, cfg tierCfg) int {
 	if st != nil && !st.ok && len(b.rep.MapRange) == 0 && len(b.rep.ImportsOfNote) == 0 && b.rep.NShared == 0 {
 		fatal("determinism self-test failed: %s", st.detail)
 	}
-	writeEvidence(b, cfg, oi, agg, eq, cmp, st, final, replayPath)
+	if mt != nil && !mt.ok {
+		fatal("simulator model test failed: %s", mt.detail)
+	}
+	writeEvidence(b, cfg, oi, agg, eq, cmp, st, mt, final, replayPath)
 	if code == 1 {
 		for _, v := range final.Violations {
 			fmt.Printf("  %s: %s\n", v.Class, v.Detail)
